@@ -59,6 +59,15 @@ def handoff_jobs(ctx, classes, mult=1):
         for name in ("simplify-downsize-on-one-side", "add-on-parent", "nested"):
             h = [dict(d, t=1) if 2 <= k < len(RULES[name]) - 2 and k % 3 else dict(d) for k, d in enumerate(RULES[name])]
             jobs.append({"cls": cls, "cfg": {"track": False, "reuse": False}, "hist": h})
+        # the branch is made in the worker (parent and child share the worker's Z3 solver), the parent is then touched from the
+        # main thread only (downsize / add + simplify), and grows again in the worker; the child is asked with calls that do not
+        # rebuild its solver first
+        for parent_op in ([{"s": 0, "op": "downsize"}], [A("x != 2", 0), {"s": 0, "op": "simplify"}]):
+            h = [A("ULE(x, 11)"), dict(E("x", 1), t=1), dict(B(), t=1)] + parent_op + \
+                [dict(A("UGE(x, 8)", 0), t=1), {"s": 0, "op": "solution", "e": "x", "v": 9, "extra": [], "t": 1},
+                 {"s": 1, "op": "solution", "e": "x", "v": 3, "extra": [], "t": 1}, {"s": 1, "op": "satisfiable", "extra": ["x == 1"], "t": 1},
+                 dict(E("x", 20, 1), t=1), dict(E("x", 20, 0), t=1)]
+            jobs.append({"cls": cls, "cfg": {"track": False, "reuse": False}, "hist": h})
         lens = ctx.pick([12, 20], [30, 60])
         for i in range(ctx.pick(8, 60) * mult):
             jobs.append({"cls": cls, "cfg": {"track": False, "reuse": False}, "len": lens[i % len(lens)],
